@@ -39,8 +39,16 @@ def check_read(ctx, rep, cls_qual):
     loops = [n for n in A.walk(fn) if isinstance(n, ast.While)]
     rep.floor("R05.1", "%s.read: read loops" % short, len(loops), 1)
     loop = loops[0]
-    # loop test is `count > 0` (remaining count positive)
+    # loop test is `count > 0` (remaining count positive); the counter is the parameter or a local initialised from it
     t = loop.test
+    tv = t.left if isinstance(t, ast.Compare) else t
+    if isinstance(tv, ast.Name) and tv.id != cnt:
+        inits = [n for n in A.walk(fn) if isinstance(n, ast.Assign) and any(
+            isinstance(x, ast.Name) and x.id == tv.id for x in n.targets) and not A.contains(loop, n)]
+        if len(inits) == 1 and isinstance(inits[0].value, ast.Name) and inits[0].value.id == cnt and \
+                inits[0].lineno < loop.lineno and not any(
+                    isinstance(n, (ast.Assign, ast.AugAssign)) and cnt in A.names_stored(n) for n in A.walk(fn)):
+            cnt = tv.id
     okt = isinstance(t, ast.Compare) and isinstance(t.left, ast.Name) and t.left.id == cnt and len(t.ops) == 1 and (
         (isinstance(t.ops[0], ast.Gt) and ctx.try_fold(t.comparators[0]) == 0) or
         (isinstance(t.ops[0], ast.GtE) and ctx.try_fold(t.comparators[0]) == 1) or
